@@ -275,6 +275,13 @@ def _lifecycle_scenario(population):
                 while not stop.is_set():
                     time.sleep(0.01)
             runner.adopt(blocked, flavour=threading)
+        elif population == "thread_keyboardinterrupt":
+            release = threading.Event()
+
+            def interrupted():
+                release.wait(10)
+                raise KeyboardInterrupt()
+            runner.adopt(interrupted, flavour=threading)
         elif population == "mixed":
             for f in ("asyncio", "trio", "threading"):
                 runner.adopt(w.bystander(f, beats), flavour=rt.FLAVOURS[f])
@@ -290,12 +297,19 @@ def _lifecycle_scenario(population):
         if not (runner.running.is_set() and w.thread.is_alive()):
             problems.append("the active runner was disturbed by a rejected accept")
         time.sleep(0.05)
-        o, t = rt.blocking(runner.shutdown, bound=rt.BOUND)
-        if o.kind != "return":
-            problems.append("shutdown() did not return within %ss (%s %r)" % (rt.BOUND, o.kind, o.exc))
-        out = w.join(bound=5 if o.kind == "return" else 1)
-        if out.kind != "return":
-            problems.append("accept() did not return normally after shutdown (%s %r)" % (out.kind, out.exc))
+        if population == "thread_keyboardinterrupt":
+            # a KeyboardInterrupt has the same effect as shutdown(): accept() returns
+            release.set()
+            out = w.join(bound=rt.BOUND)
+            if out.kind == "hang":
+                problems.append("a KeyboardInterrupt raised by a payload did not end accept() within %ss" % rt.BOUND)
+        else:
+            o, t = rt.blocking(runner.shutdown, bound=rt.BOUND)
+            if o.kind != "return":
+                problems.append("shutdown() did not return within %ss (%s %r)" % (rt.BOUND, o.kind, o.exc))
+            out = w.join(bound=5 if o.kind == "return" else 1)
+            if out.kind != "return":
+                problems.append("accept() did not return normally after shutdown (%s %r)" % (out.kind, out.exc))
     finally:
         try:
             w.cleanup()
@@ -317,7 +331,7 @@ def _lifecycle_scenario(population):
 
 
 POPULATIONS = ("none", "asyncio_sleeping", "asyncio_successor", "asyncio_successor_chain", "trio_sleeping",
-               "thread_blocked", "mixed")
+               "thread_blocked", "thread_keyboardinterrupt", "mixed")
 
 
 def extra(tier, seed):
